@@ -286,32 +286,46 @@ func c07Seq(c *Ctx, dec, enc *ssa.Function) {
 				incs = append(incs, call)
 			}
 		}
-		c.Check(len(incs) == 1, rule, fname(f), "exactly one incSeq call site", "", fmt.Sprintf("%d incSeq call sites: the sequence number must advance by exactly one per record", len(incs)), f.Pos())
-		if len(incs) != 1 {
+		// exactly one incSeq on every successful path: none of the call sites lies in a loop or can reach another one
+		// (at most one), and with the edges into all of them cut no success exit is reachable (at least one)
+		if len(incs) == 0 {
+			c.Violated(rule, fname(f), "exactly one incSeq per successful record", "no incSeq call: the sequence number never advances", f.Pos())
 			continue
 		}
-		inc := incs[0]
-		inLoop := false
-		for _, h := range loopHeaders(f) {
-			if loopBlocks(h)[inc.Block()] {
-				inLoop = true
+		twice := token.NoPos
+		for _, a := range incs {
+			for _, h := range loopHeaders(f) {
+				if loopBlocks(h)[a.Block()] {
+					twice = a.Pos()
+				}
+			}
+			for _, b := range incs {
+				if a != b && instrReaches(a, b, nil) {
+					twice = b.Pos()
+				}
 			}
 		}
-		c.Check(!inLoop, rule, fname(f), "incSeq is not inside a loop", "", "incSeq is called in a loop", inc.Pos())
+		c.Check(twice == token.NoPos, rule, fname(f), "exactly one incSeq per successful record", fmt.Sprintf("%d call site(s), none in a loop, none reachable from another", len(incs)), "a path passes incSeq twice (a call site in a loop, or one reachable from another): the sequence number must advance by exactly one per record", twice)
 		cut := map[edge]bool{}
-		for _, b := range f.Blocks {
-			for _, s := range b.Succs {
-				if s == inc.Block() {
-					cut[edge{b, s}] = true
+		entryIsInc := false
+		for _, inc := range incs {
+			if inc.Block() == f.Blocks[0] {
+				entryIsInc = true
+			}
+			for _, b := range f.Blocks {
+				for _, s := range b.Succs {
+					if s == inc.Block() {
+						cut[edge{b, s}] = true
+					}
 				}
 			}
 		}
 		ok := true
 		var w *ssa.BasicBlock
-		if inc.Block() != f.Blocks[0] {
+		if !entryIsInc {
 			ok, w = noSuccessWithout(f, f.Blocks[0], pr.spec, cut)
 		}
-		c.Check(ok, rule, fname(f), "every successful return has advanced the sequence number", "", "a successful return at "+c.P.pos(lastPos(w))+" is reachable without incSeq: two records would be protected under the same sequence number / nonce", inc.Pos())
+		c.Check(ok, rule, fname(f), "every successful return has advanced the sequence number", "", "a successful return at "+c.P.pos(lastPos(w))+" is reachable without incSeq: two records would be protected under the same sequence number / nonce", incs[0].Pos())
 	}
 	// incSeq itself
 	if f := c.Fn("gmtls", "(*halfConn).incSeq"); f != nil {
